@@ -35,6 +35,8 @@ pub mod chrono {
         { unimplemented!() }
         #[verifier::external_body]
         pub fn nanoseconds(n: i64) -> (r: Duration) ensures dur_ns(r) == n as int { unimplemented!() }
+        #[verifier::external_body]
+        pub fn zero() -> (r: Duration) ensures dur_ns(r) == 0 { unimplemented!() }
         /// `Duration::seconds`: PANICS when the value is outside chrono's range (|secs| > i64::MAX / 1000); `try_seconds` returns None there
         #[verifier::external_body]
         pub fn seconds(s: i64) -> (r: Duration) requires dur_ok(s as int * 1_000_000_000) ensures dur_ns(r) == s as int * 1_000_000_000 { unimplemented!() }
@@ -103,6 +105,15 @@ pub mod chrono {
     impl std::ops::Sub<Duration> for Duration { type Output = Duration;
         #[verifier::external_body]
         fn sub(self, rhs: Duration) -> (r: Duration) ensures dur_ns(r) == dur_ns(self) - dur_ns(rhs) { unimplemented!() } }
+    // `Duration * i32`: chrono implements it as `checked_mul(..).expect(..)`: PANICS on overflow
+    impl vstd::std_specs::ops::MulSpecImpl<i32> for Duration {
+        open spec fn obeys_mul_spec() -> bool { false }
+        open spec fn mul_req(self, rhs: i32) -> bool { dur_ok(dur_ns(self) * rhs as int) }
+        open spec fn mul_spec(self, rhs: i32) -> Duration { arbitrary() }
+    }
+    impl std::ops::Mul<i32> for Duration { type Output = Duration;
+        #[verifier::external_body]
+        fn mul(self, rhs: i32) -> (r: Duration) ensures dur_ns(r) == dur_ns(self) * rhs as int { unimplemented!() } }
     impl vstd::std_specs::ops::AddSpecImpl<Duration> for DateTime<FixedOffset> {
         open spec fn obeys_add_spec() -> bool { false }
         open spec fn add_req(self, rhs: Duration) -> bool { ts_ok(ts_ns(self) + dur_ns(rhs)) }
